@@ -33,6 +33,7 @@ def main():
     ap.add_argument('--budget', default=None)
     ap.add_argument('--no-tests', action='store_true')
     ap.add_argument('--props', default=None, help='comma list; default: meta.json property')
+    ap.add_argument('--record', action='store_true', help='rewrite meta.json even when run on a scratch copy')
     ap.add_argument('--scratch', action='store_true', help='apply to a scratch copy of /repo under /tmp instead of /repo itself')
     args = ap.parse_args()
     d = os.path.abspath(args.dir)
@@ -88,7 +89,7 @@ def main():
         if scratch:
             subprocess.run(['git', '-C', '/repo', 'worktree', 'remove', '--force', scratch])
     print(json.dumps(res, indent=1))
-    if scratch and meta.get('result'):
+    if scratch and meta.get('result') and not args.record:
         return 0 if all(res.get('check_' + p, {}).get('exit') == 1 for p in props) else 1
     where = '/repo' if not scratch else '<scratch worktree of /repo at HEAD>'
     meta['what_i_ran'] = ['git -C %s apply seeded/%s/patch.diff' % (where, res['id']),
